@@ -11,7 +11,78 @@ import (
 // race detector sees exactly the happens-before edges the real primitive gives.
 
 type Locker = stdsync.Locker
-type Cond = stdsync.Cond
+// Cond is a condition variable at simulator level: Wait releases L, parks the task
+// in the scheduler (not the OS thread that holds the baton) until a later Signal or
+// Broadcast, and takes L again. Outside a simulated run the real sync.Cond is used.
+// Signal -> Wait-return edges for the race detector come from a token, like the
+// pool's per-item token; L's Unlock -> Lock edges are the real ones.
+type Cond struct {
+	L Locker
+
+	real    *stdsync.Cond
+	key     uintptr
+	waiting int // tasks parked in Wait
+	permits int // wake-ups granted and not yet consumed
+	tok     uint32
+}
+
+//go:norace
+func (c *Cond) adj(dw, dp int) (int, int) {
+	c.waiting += dw
+	c.permits += dp
+	return c.waiting, c.permits
+}
+
+func (c *Cond) realCond() *stdsync.Cond {
+	if c.real == nil {
+		c.real = stdsync.NewCond(c.L)
+	}
+	return c.real
+}
+
+func (c *Cond) Wait() {
+	if !Running() {
+		c.realCond().Wait()
+		return
+	}
+	c.adj(1, 0)
+	c.L.Unlock()
+	for {
+		if _, p := c.adj(0, 0); p > 0 {
+			break
+		}
+		Block(&c.key)
+	}
+	c.adj(-1, -1)
+	atomic.LoadUint32(&c.tok)
+	c.L.Lock()
+}
+
+func (c *Cond) Signal() {
+	if !Running() {
+		c.realCond().Signal()
+		return
+	}
+	atomic.AddUint32(&c.tok, 1)
+	if w, p := c.adj(0, 0); w > p {
+		c.adj(0, 1)
+		Unblock(&c.key)
+	}
+	Yield(YAtomic, 0)
+}
+
+func (c *Cond) Broadcast() {
+	if !Running() {
+		c.realCond().Broadcast()
+		return
+	}
+	atomic.AddUint32(&c.tok, 1)
+	if w, p := c.adj(0, 0); w > p {
+		c.adj(0, w-p)
+		Unblock(&c.key)
+	}
+	Yield(YAtomic, 0)
+}
 // Map wraps the real sync.Map: every operation is a yield point (so that the window
 // between a Load and a later Store of a check-then-act sequence can be entered, as
 // at the atomic seam), the real map gives the race detector the real Store -> Load
@@ -141,7 +212,7 @@ func (m *Map) Range(f func(key, value any) bool) {
 	}
 }
 
-func NewCond(l Locker) *Cond { return stdsync.NewCond(l) }
+func NewCond(l Locker) *Cond { return &Cond{L: l} }
 
 // ---------------- Mutex ----------------
 
